@@ -969,6 +969,16 @@ func (obj *Package) GetFunc(name string) (fi *FuncInfo) {
 	return
 }
 
+// FindLambda returns the Lambda registered for the name which must be
+// lowercase. Calls that were compiled before a function was defined or
+// redefined refer to that Lambda.
+func (obj *Package) FindLambda(name string) (lam *Lambda) {
+	obj.mu.Lock()
+	lam = obj.lambdas[name]
+	obj.mu.Unlock()
+	return
+}
+
 // DefLambda registers a named lambda function. This is called by defun.
 func (obj *Package) DefLambda(name string, lam *Lambda, fc func(args List) Object, kind Symbol) (fi *FuncInfo) {
 	obj.mu.Lock()
